@@ -1,0 +1,35 @@
+//go:build verif
+
+// Contracts for the verification machinery in /verif (comment-only; never compiled into a binary).
+// Property C20: the built-in default strategies. Each call builds a new object with the same constant content; the
+// layering statements of C20 only need "the default" as a name, so the result is modelled as a constant non-nil
+// pointer (uninterpreted, lib/C20.spec). ASSUMED, not verified.
+
+package sloconfig
+
+//@ func DefaultResourceThresholdStrategy [C20]
+//@   ensures result == spec_defThr() && result != nil
+//@   modifies nothing
+//@   option trusted
+
+//@ func DefaultCPUBurstStrategy [C20]
+//@   ensures result == spec_defBurst() && result != nil
+//@   modifies nothing
+//@   option trusted
+
+//@ func DefaultSystemStrategy [C20]
+//@   ensures result == spec_defSys() && result != nil
+//@   modifies nothing
+//@   option trusted
+
+// Property C09: the default colocation strategy values the batch/mid resource calculation falls back to
+// (colocation_config.go, DefaultColocationStrategy). Verified against the body.
+
+//@ func DefaultColocationStrategy [C09]
+//@   ensures #mid_threshold: result.MidCPUThresholdPercent != nil && deref(result.MidCPUThresholdPercent) == 100 && result.MidMemoryThresholdPercent != nil && deref(result.MidMemoryThresholdPercent) == 100
+//@   ensures #mid_static: result.MidStaticCPUReservedPercent != nil && deref(result.MidStaticCPUReservedPercent) == 0 && result.MidStaticMemoryReservedPercent != nil && deref(result.MidStaticMemoryReservedPercent) == 0
+//@   ensures #mid_unallocated: result.MidUnallocatedPercent != nil && deref(result.MidUnallocatedPercent) == 0
+//@   ensures #batch_cap: result.BatchCPUThresholdPercent == nil && result.BatchMemoryThresholdPercent == nil
+//@   ensures #reclaim: result.CPUReclaimThresholdPercent != nil && deref(result.CPUReclaimThresholdPercent) == 60 && result.MemoryReclaimThresholdPercent != nil && deref(result.MemoryReclaimThresholdPercent) == 65
+//@   ensures #degrade: result.DegradeTimeMinutes != nil && deref(result.DegradeTimeMinutes) == 15
+//@   modifies nothing
